@@ -19,6 +19,13 @@ import sys
 from fractions import Fraction
 from pathlib import Path
 
+# one interpreter for every run (ast.unparse output is version dependent): the repository's own /venv python
+_PY = "/venv/bin/python"
+if __name__ == "__main__" and os.path.exists(_PY) and os.path.realpath(sys.executable) != os.path.realpath(_PY) \
+        and not os.environ.get("VERIF_EXTRACT_NO_REEXEC"):
+    os.environ["VERIF_EXTRACT_NO_REEXEC"] = "1"
+    os.execv(_PY, [_PY, str(Path(__file__).resolve())] + sys.argv[1:])
+
 REPO = Path(os.environ.get("SYMFC_REPO", "/repo"))
 SRC = REPO / "src" / "symfc"
 HERE = Path(__file__).resolve().parent
